@@ -67,10 +67,10 @@ type tkey struct {
 }
 
 type TermStore struct {
-	hc    map[tkey]*Term
-	hcN   map[string]*Term
-	terms []*Term
-	vars  []*Term
+	hc            map[tkey]*Term
+	hcN           map[string]*Term
+	terms         []*Term
+	vars          []*Term
 	tTrue, tFalse *Term
 	// evaluation scratch
 	evalVal   []uint64
@@ -158,6 +158,7 @@ func (ts *TermStore) Bool(b bool) *Term {
 	}
 	return ts.tFalse
 }
+
 // Var returns the input variable number idx of width w (the same term on every re-execution of a path prefix).
 func (ts *TermStore) Var(w uint8, idx int, name string) *Term {
 	n := len(ts.terms)
@@ -573,6 +574,10 @@ func (ts *TermStore) ZExt(x *Term, w uint8) *Term {
 	if x.op == OpZExt {
 		return ts.ZExt(x.args[0], w)
 	}
+	// zext(a - b) == zext(a) - zext(b) when a >= b for all values (no borrow): lets start + (last-start) cancel after widening
+	if x.op == OpSub && x.args[0].lo >= x.args[1].hi {
+		return ts.Sub(ts.ZExt(x.args[0], w), ts.ZExt(x.args[1], w))
+	}
 	return ts.mk(OpZExt, w, uint64(w-x.w), x)
 }
 
@@ -708,6 +713,13 @@ func (ts *TermStore) Add(x, y *Term) *Term {
 			return ts.Add(x.args[0], ts.BV(x.w, x.args[1].c+y.c))
 		}
 	}
+	// x + (z - x) == z (mod 2^w): run containers store (start, last-start) and recompute last = start+length
+	if y.op == OpSub && y.args[1] == x {
+		return y.args[0]
+	}
+	if x.op == OpSub && x.args[1] == y {
+		return x.args[0]
+	}
 	return ts.mk(OpAdd, x.w, 0, x, y)
 }
 func (ts *TermStore) Sub(x, y *Term) *Term {
@@ -722,6 +734,15 @@ func (ts *TermStore) Sub(x, y *Term) *Term {
 	}
 	if x == y {
 		return ts.BV(x.w, 0)
+	}
+	// (y + z) - y == z (mod 2^w)
+	if x.op == OpAdd {
+		if x.args[0] == y {
+			return x.args[1]
+		}
+		if x.args[1] == y {
+			return x.args[0]
+		}
 	}
 	return ts.mk(OpSub, x.w, 0, x, y)
 }
